@@ -93,10 +93,20 @@ def appendCheck (fs : List Field) (x : Field) : List Field :=
 /-- the generator's `g.fields` -/
 def flatten (t : Tree) : List Field := (walkTop noShadow t).foldl appendCheck []
 
+def goKeywords : List String :=
+  ["break", "case", "chan", "const", "continue", "default", "defer", "else", "fallthrough", "for",
+   "func", "go", "goto", "if", "import", "interface", "map", "package", "range", "return", "select",
+   "struct", "switch", "type", "var"]
+
+/-- parameter name of a field: ToCamelCase, with `_` appended when that is a Go keyword (3fa6a50) -/
+def paramName (n : String) : String :=
+  let c := camelS n
+  if goKeywords.contains c then c ++ "_" else c
+
 /-- `nameMap` of makeNew, as a function: keyed by field *name* -/
 def nameMap (hasNew : Bool) (fs : List Field) (n : String) : Option String :=
   if fs.any (fun f => f.name = n ∧ !f.isShadowed ∧ !f.isEmbeded ∧ !(hasNew ∧ !f.isNew))
-  then some (camelS n) else none
+  then some (paramName n) else none
 
 /-- `newParamsList`: (parameter name, printed type) -/
 def paramsList (nm : String → Option String) (fs : List Field) : List (String × String) :=
